@@ -314,7 +314,32 @@ def add_sock_case(em, p, events, cfg, k, desc, chunked=False, bufsize=4096):
     return res
 
 
+def zero_frame_boundaries(em, p, tabs, rng, prop):
+    """socket streams A B Z C (Z = the zero-length frame D3 00 00 + CRC, for which the reader issues read(0)) with a receive boundary at every
+    position in and around Z and small buffer sizes, so that read(0) meets a buffer that is exactly drained, just refilled, or has just wrapped:
+    the frames returned must be those a file reader returns for the same bytes"""
+    pls = valid_payloads(tabs, rng, 3)
+    A, B, C = (gen.frame(x) for x in pls)
+    Z = gen.frame(b"")
+    for pre in (A + B, A, b""):
+        data = pre + Z + C
+        want = [r[1] for h, r in run_reader(p, FStream(data), (1, 0, 1, True), 8)[0] if r[0] == "Y"]
+        for cut in range(len(pre), len(pre) + len(Z) + 1):
+            if not 0 < cut < len(data):
+                continue
+            for bs in sorted({4, 16, max(4, len(pre)), max(4, len(pre) + 3), 4096}):
+                res = add_sock_case(em, p, [data[:cut], data[cut:]], (1, 0, 1, True), 8, "frames, zero-length frame, frame over a socket: receive boundary %d bytes into the zero-length frame, bufsize %d" % (cut - len(pre), bs), bufsize=bs)
+                em.direct_evaluations += 1
+                got = [r[1] for h, r in res if r[0] == "Y"]
+                if got != want:
+                    em.violation("%s: a socket reader returns different frames than a file reader around a zero-length frame (receive boundary %d bytes into it, bufsize %d)" % (prop, cut - len(pre), bs),
+                                 {"recv_events": [data[:cut].hex(), data[cut:].hex()], "bufsize": bs, "stream": data.hex(), "cfg": [1, 0, 1, True]}, {"returned": len(got), "expected": len(want)})
+                    return
+    em.count("zero_frame_boundaries")
+
+
 # ------------------------------------------------------------------------------------------------- stream generators
+BIGS = []          # frames whose repeat counters are 99 / 100 / 101 / the field maximum, harmonic layers of every shape (gen.bigcount_builds)
 built_ok = set()   # payloads laid out by the reference encoder for a defined type: they must parse
 derived = set()    # payloads derived from others by bit surgery (same-checksum siblings, nested frames): whether a defined type still decodes is asked of the constructor
 
@@ -380,6 +405,12 @@ def mixed_stream(tabs, rng, nitems, kinds, p_nmea_hdr):
                 items.append(("frame", gen.frame(b_.payload), b_.payload))
             else:
                 items.append(("frame", gen.frame(pays[i]), pays[i]))
+        elif k == "big":
+            if not BIGS:
+                BIGS.extend(b_ for b_ in gen.bigcount_builds(tabs, rng, ["1007", "1008", "1029", "1033", "4076_201"]) if len(b_.payload) <= 1023)
+            b_ = rng.choice(BIGS)
+            built_ok.add(b_.payload)
+            items.append(("frame", gen.frame(b_.payload), b_.payload))
         elif k == "zero":
             items.append(("zero", gen.frame(b""), None))
         elif k == "damaged":
@@ -745,6 +776,17 @@ def main():
                     em.count("msmshape.%dx%d" % (shp[1], shp[2]))
         for i_ in range(0, len(its), 6):
             special.append((b"".join(x[1] for x in its[i_:i_ + 6]), its[i_:i_ + 6]))
+        # every CRC-valid frame with a ONE-byte payload (too short to carry a message number: not returned, but valid) directly followed by
+        # a good frame, which must be returned: the checksums of these 256 frames contain every kind of sync look-alike in their tails
+        goodp = valid_payloads(tabs, rng, 8)
+        for base_ in range(0, 256, 32):
+            its = []
+            for v_ in range(base_, base_ + 32):
+                its.append(("short1", gen.frame(bytes([v_])), None))
+                pl = goodp[v_ % len(goodp)]
+                its.append(("frame", gen.frame(pl), pl))
+            special.append((b"".join(x[1] for x in its), its))
+            em.count("one_byte_payload_frames", 32)
         # more than a thousand consecutive foreign or filler items between two valid frames
         for kind in (("nmea", "ubx", "zero", "unknown") if thorough else ("nmea", "zero", "unknown")):
             special.append(deep_run(tabs, rng, kind, DEEP))
@@ -964,7 +1006,7 @@ def main():
     elif prop == "C17":
         for it in range(50 if thorough else 14):
             n = rng.randrange(2, 10)
-            data, items = mixed_stream(tabs, rng, n, ["frame", "frame", "msm", "nmea", "ubx", "noise", "zero"], None)
+            data, items = mixed_stream(tabs, rng, n, ["frame", "frame", "msm", "nmea", "ubx", "noise", "zero"] + (["big", "big"] if it % 3 == 0 else []), None)
             if len(data) > 8000:
                 continue
             lab_ = 1 + it % 2          # the label option must keep its effect whatever the other options are
@@ -999,7 +1041,7 @@ def main():
                             out[(v, pa, q, nm)] = (res, st.pos)
             em.direct_evaluations += 1
             frames = [x[1] for x in items if x[0] == "frame"]
-            okp = [constructs(x[2]) for x in items if x[0] == "frame"]
+            okp = [x[2] in built_ok or constructs(x[2]) for x in items if x[0] == "frame"]     # payloads laid out by the reference encoder must parse
             # parsing off: same raw frames, no parsed object
             r_on = [r[1] for h, r in out[(1, True, 0, "good")][0] if r[0] == "Y"]
             r_off = [(r[1], r[2]) for h, r in out[(1, False, 0, "good")][0] if r[0] == "Y"]
@@ -1216,6 +1258,7 @@ def main():
         em.samples = [{"streams": "hostile item mixes, sync-dense noise, random bytes, embedded short-payload frames; three modes; with and without faults; plain and chunked sockets cut anywhere; hostile chunked wire incl. enormous / signed / malformed size lines"}]
 
     elif prop == "C11":
+        zero_frame_boundaries(em, p, tabs, rng, "C11")
         for it in range(60 if thorough else 18):
             data, items = mixed_stream(tabs, rng, rng.randrange(2, 10), ["frame", "frame", "zero", "nmea", "ubx", "noise", "damaged"], None)
             if len(data) > 6000:
@@ -1296,6 +1339,7 @@ def main():
                                      {"stream": data.hex(), "recv_events": [x.hex() for x in segs]}, {})
                     if kind == "sock" and [v for v in view if v[0] == "Y"] != [v for v in ref[(si, "file")] if v[0] == "Y"]:
                         em.violation("C13: socket reader and file reader disagree on the same bytes", {"stream": data.hex(), "recv_events": [x.hex() for x in segs]}, {})
+        zero_frame_boundaries(em, p, tabs, rng, "C13")
         # a new reader object for every message over ONE shared stream, the previous reader dropped and collected before the next is made
         import gc as _gc
         for si, (data, items) in enumerate(streams[:4]):
